@@ -902,6 +902,10 @@ pub fn def_c03() -> PropDef {
 fn run_fe(sim: &Sim, cfg: &RunCfg, prop: &'static str) -> RunOut {
     sim.choose_policy();
     let c03 = prop == "C03";
+    if c03 {
+        // "never an indefinite wait": see the note at the other livelock clauses
+        sim.st().cap_clause = Some("livelock");
+    }
     let sess = sim.with_w(|t| {
         gen_fe_session(
             t,
